@@ -11,7 +11,7 @@ use std::collections::BTreeMap;
 use std::hash::{Hash, Hasher};
 use std::sync::atomic::{AtomicU64, Ordering};
 
-pub const CUSTOM_KEYS: [&str; 7] = ["a", "q\"\\\n", "\u{1d11e}clef", "\u{043a}\u{043b}\u{044e}\u{0447}", "a b", " ", "\u{00a0}\t"];
+pub const CUSTOM_KEYS: [&str; 8] = ["a", "q\"\\\n", "\u{1d11e}clef", "\u{043a}\u{043b}\u{044e}\u{0447}", "a b", " ", "\u{00a0}\t", "https://example.com/claims/a-namespaced-claim-name-longer-than-sixty-four-bytes/roles"];
 pub const TYPED_KEYS: [&str; 7] = ["aud", "sub", "iss", "jti", "exp", "nbf", "iat"];
 
 /// the value alphabet: (how it is handed to the constructor, the JSON it must come back as)
@@ -40,6 +40,9 @@ pub fn value_alphabet() -> Vec<(Value, Form)> {
         (json!({"$KEY": {"$KEY": [1]}}), Form::TupleStr),
         // an application-defined claim type serialising as {"exp": <value>} under another key
         (json!("2999-01-01T00:00:00Z"), Form::ForeignOneField),
+        // empty containers, alone and nested
+        (json!({}), Form::TupleStr),
+        (json!([{}, [], {"e": {}, "l": [], "n": null}]), Form::TupleStr),
     ]
 }
 
